@@ -252,11 +252,14 @@ def protocol_aliases(obj, n, table):
                 return f'check_at({x},{j}) differs from evaluate_at'
     if call(obj.get_model_truth_table, ctable) != call(obj.get_truth_table, ctable):
         return 'get_model_truth_table differs from get_truth_table'
-    if obj.define({}) is not obj:
-        return 'define({}) does not return the function itself'
-    r = call(lambda: obj.define({((False,) * n, 0): True}), lambda v: True)
-    if r != ['err', 'BadDefinitionError']:
-        return f'define(non-empty) on a defined function gave {r}'
+    # a fully defined function is its own completion: the result of define({}) computes the same table (whether it
+    # is the same object, and whether a redundant definition is refused or ignored, is not part of the property)
+    try:
+        same = obj.define({})
+        if call(same.get_truth_table, ctable) != call(obj.get_truth_table, ctable):
+            return 'define({}) of a defined function computes another table'
+    except Exception as e:  # noqa: BLE001
+        return f'define({{}}) of a defined function raises {type(e).__name__}'
     return None
 
 
@@ -748,6 +751,9 @@ def oracle_func(case):
     for i, q in enumerate(qs):
         if qkey(q) in S or (q[0] == 'find_negations_to_make_symmetric' and all(j < m for j in q[1])):
             a = [per_class[c][i] for c in CLASSES]
+            if q[0] == 'find_negations_to_make_symmetric':
+                # any valid witness is an answer (each one was validated above): agreement = existence
+                a = [(x[0], x[1] is None) if x[0] == 'ok' else x for x in a]
             if not (a[0] == a[1] == a[2]):
                 return f'agreement.{q[0]}: {q[1:]} Circuit/TruthTable/PyFunction answered {a}'
     return None
